@@ -84,11 +84,6 @@ def m_args(m):
     return f"{a} {b} {c} {l1} {l2} " + ",".join(str(x) for x in ph)
 
 
-def style_flags(style):
-    """-> (use_save_cursor, use_line_feeds)"""
-    return {"sr": (True, False), "rel": (False, False), "lf": (True, False) if False else (True, True), "abs": (True, False)}[style]
-
-
 def model_request(c):
     api = c["api"]
     base = f"{p_args(c)} {m_args(c['mode'])} {fmt_arg(c['fmt'])}"
